@@ -90,3 +90,19 @@ func init() {
 		thorough:      []buildSpec{plain(16)},
 	}
 }
+
+func init() {
+	props["C13"] = propSpec{
+		level: "exploration",
+		rule: "Go race detector (-race build of the monitor) over a method-pair matrix: for each documented concurrency-safe type {pubsub.Queue, Deque (+ Distributors, iterators, blocking producers), Broker (channel/queue/deque), fun.WaitGroup, erc.Collector incl. inspecting the resolved error, " +
+			"adt.Map / Atomic / Synchronized / Once / Pool, synchronized dt.Set ordered and unordered, Lock/WithLock/Once/Limit wrappers of Worker/Operation/Producer/Processor/Handler/Future/Transform} every unordered pair of public methods (incl. a method with itself) is driven by 2-4 goroutines " +
+			"released from a barrier on one shared, pre-populated instance (300 calls each; thorough: 1500 calls x 4 repetitions, plus the same matrix built with go1.26.8); reports are read from the detector's log, deduplicated by frame pair, and count when both accesses are in module code " +
+			"(or in the monitor's lock-protected probe state). distinct_nontrivial = distinct method pairs for which at least one pair of call intervals (monotonic clock, per goroutine) was observed to overlap",
+		assumptions: append([]string{"decides only the accesses that the drivers actually overlapped; the static lock-set reading ('every path holds the mutex') is not decided",
+			"no shared atomic clock is used around the calls (it would add happens-before edges and hide races)"}, commonAssumptions...),
+		floorEvals:    200,
+		floorDistinct: 150,
+		quick:         []buildSpec{race(12)},
+		thorough:      []buildSpec{race(16), race126(8)},
+	}
+}
